@@ -46,6 +46,36 @@ FAMILY_URN = {
 }
 
 
+REQUIRED_BOUNDS = ['accepts_iff', 'accepts_closed_lo', 'accepts_closed_hi', 'accepts_closed', 'exclusive_upper_refuses_bound', 'accepts_none',
+                   'accepts_widen', 'contains_sound', 'inclusive_facet_bounds_accepted']
+
+
+def bounds_obligations(chk, broken, lean_dir):
+    """regenerate Gen/Bounds.lean (comparison kernel of the bounded descriptors + descriptor / facet tables), build it on its own and audit the
+    generated bridge and table theorems; what breaks is appended to `broken` (the facet / bound value families of the oracle provide the input)"""
+    import gen_bounds
+    from common import lake_build, audit, ALLOWED_AXIOMS
+    g = gen_bounds.generate(os.path.join(lean_dir, 'SarpyModel', 'Gen', 'Bounds.lean'))
+    chk.coverage['bounds'] = {k: g[k] for k in ('unsupported', 'descriptors', 'strict', 'fields_with_facets', 'contained_pairs', 'narrower_pairs', 'narrower',
+                                                'bounded_fields_without_facet', 'strict_without_facet', 'fragments')}
+    for name, why in g['unsupported']:
+        broken.append('Gen.Bounds.%s: the comparison kernel of the descriptor is no longer in the translatable shape (%s)' % (name, why))
+    ok, _, errs, log = lake_build(['SarpyModel.Gen.Bounds'])
+    if not ok:
+        broken.append('Gen/Bounds.lean does not build - the regenerated `_in_bounds` is not the closed interval, or a descriptor became narrower than the '
+                      'facets of its schema element: ' + '; '.join('%s:%s %s' % (f, l, m[:140]) for f, l, c, m in errs[:3]) + log[-160:])
+        return g
+    th = audit('SarpyModel.Gen.Bounds', 'Sarpy.Gen.Bounds')
+    for n, a in th.items():
+        if set(a) - ALLOWED_AXIOMS:
+            broken.append('%s depends on non-standard axioms %s' % (n, sorted(set(a) - ALLOWED_AXIOMS)))
+    for t in g['theorems']:
+        if 'Sarpy.Gen.Bounds.' + t not in th:
+            broken.append('Sarpy.Gen.Bounds.%s (required theorem missing)' % t)
+    chk.coverage['bounds']['generated_theorems_audited'] = len(th)
+    return g
+
+
 class CannotConstruct(Exception):
     pass
 
@@ -1546,8 +1576,9 @@ def run(tier):
         'untranslated_classes': info['untranslated'], 'unreadable_rules': info['rule_failures'],
         'transcribed_functions_pinned': len(info['pins']), 'transcribed_functions_changed': info['pin_changes'],
     }
-    broken = chk.prove(['SarpyModel.Props.C05', 'SarpyModel.Gen.XmlTables', 'SarpyModel.Drivers'], 'SarpyModel.Props.C05',
-                       'Sarpy.Props.C05', REQUIRED, gen_info)
+    broken = chk.prove(['SarpyModel.Props.C05', 'SarpyModel.Props.C05Bounds', 'SarpyModel.Gen.XmlTables', 'SarpyModel.Drivers'], 'SarpyModel.Props.C05',
+                       'Sarpy.Props.C05', REQUIRED, gen_info, extra=[('SarpyModel.Props.C05Bounds', 'Sarpy.Props.C05Bounds', REQUIRED_BOUNDS)])
+    bounds_obligations(chk, broken, os.path.join(VERIF, 'lean'))
     for m, why in info['import_failures']:
         broken.append(f'element module {m} does not import: {why}')
     for w in info['rule_failures']:
@@ -1878,6 +1909,32 @@ def run(tier):
         'xml.etree.ElementTree (escaping, namespace resolution, utf-8) is trusted; control characters other than tab/newline are not generated',
         'the constructor of a class may derive or default fields (translator.constructors_with_extra_statements): only the oracle sees that',
     ]
+    # ---- the closed interval on the implementation: every bounded descriptor must accept the value exactly at each declared bound
+    # (Props/C05Bounds accepts_closed; tables of Gen/Bounds.lean).  Assigned on an empty instance; a refusal (exception, or another value kept) is a failure.
+    import gen_bounds as _gb
+    n_bound = 0
+    for r_ in _gb.descriptor_rows():
+        for end, sv in (('lower', r_['lo']), ('upper', r_['hi'])):
+            if sv is None:
+                continue
+            val = sv // _gb.SCALE if sv % _gb.SCALE == 0 else sv / _gb.SCALE
+            val = float(val) if r_['kind'] == 'float' else int(val)
+            n_bound += 1
+            what = None
+            try:
+                inst = object.__new__(r_['pycls'])          # no constructor: only the descriptor's acceptance test is exercised
+                setattr(inst, r_['field'], val)
+                got = getattr(inst, r_['field'])
+                if got != val:
+                    what = f'kept {got!r}'
+            except Exception as e:
+                what = f'raised {type(e).__name__}: {str(e)[:200]}'
+            if what:
+                fails.append(dict(kind='xml', cls=r_['cls'], path=r_['cls'].split('.')[-1] + '.' + r_['field'], key=None, mode='bound', seed=0,
+                                  what=f'the value exactly at the {end} bound {val!r} of bounds=({r_["lo"]}, {r_["hi"]})/1e6 is not accepted: {what}',
+                                  msg=f'{r_["cls"]}.{r_["field"]}: assigning the value exactly at the declared {end} bound ({val!r}) {what} '
+                                      f'(the acceptance domain is the closed interval)', bound_case=[r_['cls'], r_['field'], val]))
+    chk.coverage['bound_values_assigned'] = n_bound
     chk.coverage['failing_inputs'] = len(fails)
     # group failures: one report per (key or class+kind+field)
     # a failure is covered only if every defect it is attributed to is a listed finding
